@@ -844,28 +844,63 @@ Proof.
   - cbn in E. injection E as E1 E2. destruct (IH c) as [H1 H2]; [lia|assumption|]. subst. auto.
 Qed.
 
-(* the hashed material determines the command line and the three declared input lists: any rewiring (adding,
-   removing, renaming, reordering an input, or moving it to another class) changes it *)
+(* the hashed material determines the command line, the three declared input lists and the output list: any rewiring
+   (adding, removing, renaming, reordering an input or output, or moving an input to another class) changes it *)
 Lemma hash_material_injective d1 d2 : hash_material d1 = hash_material d2 -> d1 = d2.
 Proof.
-  destruct d1 as [c1 e1 i1 o1], d2 as [c2 e2 i2 o2]. unfold hash_material. cbn [d_command d_explicit d_implicit d_order_only].
-  intros H. injection H as HC HE HI HL.
+  destruct d1 as [c1 e1 i1 o1 u1], d2 as [c2 e2 i2 o2 u2]. unfold hash_material.
+  cbn [d_command d_explicit d_implicit d_order_only d_outputs].
+  intros H. injection H as HC HE HI HL _ HU.
   destruct (app_eq_length_l e1 (i1 ++ o1) e2 (i2 ++ o2) HE HL) as [E1 R].
   destruct (app_eq_length_l i1 o1 i2 o2 HI R) as [E2 E3]. subst. reflexivity.
 Qed.
 
-(* before the repair the material was the command line alone: an implicit input could be added unnoticed *)
+(* before the repairs: the command line alone (an implicit input could be added unnoticed), then without the outputs
+   (a statement could gain an output unnoticed) *)
 Lemma hash_material_unrepaired_refuted :
   exists d1 d2, d1 <> d2 /\ hash_material_unrepaired d1 = hash_material_unrepaired d2 /\ hash_material d1 <> hash_material d2.
 Proof.
-  exists (mkDef [99] [[97]] [] []), (mkDef [99] [[97]] [[98]] []).
+  exists (mkDef [99] [[97]] [] [] [[111]]), (mkDef [99] [[97]] [[98]] [] [[111]]).
+  split; [discriminate|]. split; [reflexivity|]. discriminate.
+Qed.
+
+Lemma hash_material_no_outputs_refuted :
+  exists d1 d2, d1 <> d2 /\ hash_material_no_outputs d1 = hash_material_no_outputs d2 /\ hash_material d1 <> hash_material d2.
+Proof.
+  exists (mkDef [99] [[120]] [] [] [[97]]), (mkDef [99] [[120]] [] [] [[97]; [98]]).
   split; [discriminate|]. split; [reflexivity|]. discriminate.
 Qed.
 
 Example hash_material_instance :
-  hash_material (mkDef [99] [[97]] [[98]] []) <> hash_material (mkDef [99] [[97]] [] [[98]]) /\
-  hash_material (mkDef [99] [[97]; [98]] [] []) <> hash_material (mkDef [99] [[98]; [97]] [] []).
+  hash_material (mkDef [99] [[97]] [[98]] [] [[111]]) <> hash_material (mkDef [99] [[97]] [] [[98]] [[111]]) /\
+  hash_material (mkDef [99] [[97]; [98]] [] [] [[111]]) <> hash_material (mkDef [99] [[98]; [97]] [] [] [[111]]).
 Proof. split; discriminate. Qed.
+
+(* ------------------------------------------------------------------ declared self-references reach the engine *)
+
+Lemma start_keys_all strict phony outs ins :
+  strict = true \/ phony = false -> start_keys strict phony outs ins = ins.
+Proof.
+  intros H. unfold start_keys.
+  assert (E : forall i, negb (skips_cyclic_input strict phony outs i) = true).
+  { intros i. unfold skips_cyclic_input. destruct H as [H|H]; rewrite H; cbn [negb andb]; [reflexivity|].
+    rewrite andb_false_r. reflexivity. }
+  induction ins as [|i ins IH]; [reflexivity|]. cbn [filter]. rewrite E, IH. reflexivity.
+Qed.
+
+Lemma start_keys_self_reference strict phony outs ins o :
+  strict = true \/ phony = false -> In o ins -> In o (start_keys strict phony outs ins).
+Proof. intros H I. rewrite start_keys_all by assumption. assumption. Qed.
+
+Lemma start_keys_phony_lenient outs ins :
+  start_keys false true outs ins = filter (fun i => negb (mem_bytes i outs)) ins.
+Proof. reflexivity. Qed.
+
+Example start_keys_instance :
+  start_keys false false [[111]] [[105]; [111]] = [[105]; [111]] /\      (* build o: G i o      -> cycle *)
+  start_keys false true [[111]] [[105]; [111]] = [[105]] /\              (* build o: phony i o  -> lenient *)
+  start_keys true true [[111]] [[105]; [111]] = [[105]; [111]].          (* ... but not under --strict *)
+Proof. vm_compute. repeat split; reflexivity. Qed.
 
 (* ------------------------------------------------------------------ phony aliases as inputs *)
 
